@@ -18,6 +18,7 @@ static void any_types (void) {
 static void setup (int hold, int spin, int waited) {
 	any_types ();
 	vp_reg_clear ();
+	vp_fw_init ();
 	vp_reg.mu_word = &the_mu.word;
 	vp_reg.my_waiting = &the_w.nw.waiting;
 	vp_mu_init_ghost (hold, spin, waited);
